@@ -438,7 +438,7 @@ class EGraph:
             if isinstance(el, str):
                 e = (el, e)
             elif "f" in el:
-                e = self._field(e, el.get("n") or str(el["f"]), el["f"])
+                e = self._field(e, el.get("n") or str(el["f"]), el["f"], self._scalar_field(el))
             elif "dc" in el:
                 e = ("as", e, el["dc"])
             elif "idx" in el:
@@ -447,7 +447,23 @@ class EGraph:
                 e = ("idx", e, ("const", ("-" if el.get("from_end") else "") + str(el["cidx"])))
         return e
 
-    def _field(self, base, name, idx):
+    _SCALAR = re.compile(r"^(u8|u16|u32|u64|u128|usize|i8|i16|i32|i64|i128|isize|bool|char|f32|f64|std::option::Option<.*>)$")
+
+    def _scalar_field(self, el):
+        """is this field of a crate-local struct a plain value (integer/bool/Option) that may be overwritten later?
+        Such fields are NOT resolved to the value they had when the struct was built."""
+        adt = el.get("adt")
+        if not adt or adt.startswith("closure:"):
+            return False
+        a = self.prog.facts.adts.get(adt)
+        if not a or a.get("is_enum"):
+            return False
+        for f in a["variants"][0]["fields"]:
+            if f["name"] == el.get("n"):
+                return bool(self._SCALAR.match(f["ty"]))
+        return False
+
+    def _field(self, base, name, idx, scalar=False):
         # normalisations
         if base[0] == "as":
             inner, var = base[1], base[2]
@@ -466,8 +482,8 @@ class EGraph:
                 return ("okval", inner)
             if var == "Err" and idx == 0:
                 return ("errval", inner)
-        if base[0] == "agg":
-            # projection of a known aggregate
+        if base[0] == "agg" and not scalar:
+            # projection of a known aggregate (object identity of containers / handles is stable; plain values are not)
             fields = base[3]
             if idx < len(fields):
                 return fields[idx]
@@ -1388,4 +1404,12 @@ def smallest_loop(g, n):
     for h, body in natural_loops(g):
         if n in body:
             return h, body
+    return None
+
+
+def agg_field(e):
+    """for ('field', ('agg', adt, variant, fields), name/idx): the value the field had at construction, else None.
+    Only meaningful when the caller has established that the field is never assigned afterwards."""
+    if isinstance(e, tuple) and len(e) == 3 and e[0] == "field" and isinstance(e[1], tuple) and e[1] and e[1][0] == "agg":
+        return ("aggfield", e[1], e[2])
     return None
